@@ -287,6 +287,11 @@ func (f *VFile) Seek(off int64, whence int) (int64, error) {
 }
 func (f *VFile) Write(p []byte) (int, error) {
 	if ft := f.v.ev("Write", f.path, f.h, len(p), true); ft != nil && ft.Err != nil {
+		if ft.Short > 0 && ft.Short < len(p) {
+			// a partial write (disk full in the middle of the buffer): Short bytes are stored, then the error
+			n, _ := f.File.Write(p[:ft.Short])
+			return n, ft.Err
+		}
 		return 0, ft.Err
 	}
 	return f.File.Write(p)
